@@ -130,7 +130,7 @@ theorem decOk_imp_relaxed (mode : Bool) (desc : Packet) (cut : Option Nat) (fed 
     exact fun h => h.1
   | some n => exact id
 
-/-- `<mode> <packet> <opt cut> <fed bytes> <before: list bytes> <after: list bytes> => <res view> <head>`.
+/-- `<mode> <packet> <opt cut> <fed bytes> <before: list bytes> <after: list bytes> <sub> => <res view> <head> <res view>`.
     Exact decoding is demanded of well-formed payloads only: field layout (`Packet.WF`) and RFC 7798
     semantics (`semanticOK`); on the others the code is compared with the model only.
     `before` / `after` are the payloads the SAME H265Packet parsed before / after the payload under
@@ -141,15 +141,21 @@ theorem decOk_imp_relaxed (mode : Bool) (desc : Packet) (cut : Option Nat) (fed 
     `<sub>` = 1: the receiver is not an H265Packet but the exported sub-parser of the described form
     (H265SingleNALUnitPacket / H265AggregationPacket), ONE value for `before`, the payload and `after`;
     the view is written from what its accessors returned right after the payload was decoded, kept
-    by the caller and re-read after `after`.  The model answers with that sub-parser (`decObsSub`). -/
+    by the caller and re-read after `after`.  The model answers with that sub-parser (`decObsSub`).
+    The second `<res view>` of the observation is what a second receiver reports: ONE H265Packet with
+    SetZeroAllocation(true) that parsed `before` and then the payload, its accessors read at once;
+    H265Packet decodes each payload on its own in that mode too (model: `decode`), and the same
+    predicate is evaluated on it. -/
 def dec : Handler :=
   mkHandler
     (do let m ← Rd.bool; let (p, _) ← rdPacket false; let c ← Rd.opt Rd.nat; let b ← Rd.bytes
         let _before ← Rd.list Rd.bytes; let _after ← Rd.list Rd.bytes; let sub ← Rd.bool
         pure (m, p, c, b, sub))
-    (do let r ← rdResParsed; let h ← Rd.bool; pure ({ res := r, head := h } : C14.DecObs))
-    (fun (m, p, _, b, sub) => if sub then decObsSub m p b else decObs m b)
-    (fun (m, p, c, b, _) o => decOkRelaxed m p c b o)
+    (do let r ← rdResParsed; let h ← Rd.bool; let z ← rdResParsed
+        pure (({ res := r, head := h } : C14.DecObs), z))
+    (fun (m, p, _, b, sub) => (if sub then decObsSub m p b else decObs m b, decode m (some b)))
+    -- the predicate once on the receiver under test, once more on the zero-allocation receiver
+    (fun (m, p, c, b, _) (o, z) => decOkRelaxed m p c b o && decOkRelaxed m p c b { o with res := z })
     (fun (m, p, c, _, _) => p.WF m && semanticOK p &&
       (match c with | none => true | some n => decide (n < (encode p).length)))
 
